@@ -1,9 +1,10 @@
 (* Prop_C12.v — property theorems for C12, and nothing else. *)
 From Dig Require Import Base Sig State Graph GraphProofs Register Resolve Run Spec Check
-  ErrTable Err ErrTableCheck P_Frame P_Reg P_Keys P_Once P_Term P_Refine.
+  ErrTable Err ErrTableCheck P_Frame P_Reg P_Keys P_Once P_Term P_Refine GoTypes Parse RunRaw P_Glue.
 
 (* ---- C12: a scope accepts at most one decorator per key: Decorate is rejected
-        exactly when the scope already decorates one of the keys, and then none
+        exactly when the decorator returns the same key twice or the scope
+        already decorates one of the keys (P_Keys.dec_conflict), and then none
         of its keys is registered (P_Frame.decorate_rejected_frame) ---- *)
 Theorem C12_decorate_rule_partial : forall st r s p, RegRel st r ->
   fst (decorate st s p) = if dec_conflict r s (di_sig p) then VErr err_dec_dup else VOk.
@@ -19,3 +20,24 @@ Theorem C12_prov_up_to_known_findings : forall cfg bt du h,
   c = 112 \/ c = 132 \/ (c = 120 /\ has_opt h = true /\ has_dec h = true).
 Proof. exact P_Refine.prov_refines. Qed.
 Print Assumptions C12_prov_up_to_known_findings.
+
+(* ---- C12, the whole checker (Decorate rule + provenance + singleton clauses):
+        nothing but the recorded known findings ---- *)
+Theorem C12_holds_up_to_known_findings : forall cfg bt du h,
+  wf_scopes h = true -> wf_strict h = true -> P_Once.wf_fns h = true -> cfg_dry cfg = false ->
+  forall i c, In (i, c) (chk_C12 bt h (map obs_of (run cfg (beh_of bt) du h))) ->
+    c = 112 \/ c = 132 \/ (c = 120 /\ has_opt h = true /\ has_dec h = true).
+Proof. exact P_Glue.chk_C12_bound. Qed.
+Print Assumptions C12_holds_up_to_known_findings.
+
+(* ---- the same for every history dig's own parser produces: `raw_only rh` says that
+        each operation of rh is a Scope call or a Provide / Decorate / Invoke of an
+        arbitrary Go value of the grammar (GoTypes) with arbitrary options;
+        `lower_op` parses it (Parse / RunRaw).  No well-formedness premise on keys
+        is left: the parser establishes it (P_Glue.lowered_wf) ---- *)
+Theorem C12_holds_raw : forall cfg bt du rh, raw_only rh ->
+  wf_scopes (map lower_op rh) = true -> P_Once.wf_fns (map lower_op rh) = true -> cfg_dry cfg = false ->
+  forall i c, In (i, c) (chk_C12 bt (map lower_op rh) (map obs_of (run cfg (beh_of bt) du (map lower_op rh)))) ->
+    Bound (map lower_op rh) c.
+Proof. exact P_Glue.C12_raw. Qed.
+Print Assumptions C12_holds_raw.
